@@ -88,7 +88,7 @@ func (tr *traffic) run(kind string) {
 
 func gen(t *rapid.T) Case {
 	var c Case
-	n := rapid.IntRange(1, 25).Draw(t, "nops")
+	n := rapid.IntRange(1, rig.Up(25)).Draw(t, "nops")
 	for i := 0; i < n; i++ {
 		op := Op{Slot: rapid.IntRange(0, 1).Draw(t, "slot")}
 		switch k := rapid.IntRange(0, 19).Draw(t, "kind"); {
